@@ -239,7 +239,18 @@ def readVar (env : Env) (x : Name) : Option Int :=
   | none => some 0
   | some s => signedConstValue s
 
-def writeVar (env : Env) (x : Name) (v : Int) : Env := update env x (toString v).toList
+/-- the decimal numeral of a natural number -/
+def decimalNat : Nat → Nat → List Char
+  | 0, _ => []
+  | f + 1, n =>
+    let d := Char.ofNat ('0'.toNat + n % 10)
+    if n < 10 then [d] else decimalNat f (n / 10) ++ [d]
+
+/-- the text an assignment stores: the decimal numeral of the value -/
+def decimal (v : Int) : List Char :=
+  if v < 0 then '-' :: decimalNat ((-v).toNat + 1) (-v).toNat else decimalNat (v.toNat + 1) v.toNat
+
+def writeVar (env : Env) (x : Name) (v : Int) : Env := update env x (decimal v)
 
 inductive Kind where
   | plain | assign | compound
@@ -344,6 +355,15 @@ def inScope : Expr → Bool
        disjoint (writes l) (reads r) && disjoint (writes r) (reads l)
      else !isCond l && disjoint (writes r) (reads l) && disjoint (writes l) (reads r))
   | .cond c t e => inScope c && inScope t && inScope e
+
+/-- does the expression use `++` or `--` anywhere (what the `portable` option forbids)? -/
+def hasIncDec : Expr → Bool
+  | .num _ => false
+  | .var _ => false
+  | .pre op e => op = .Increment || op = .Decrement || hasIncDec e
+  | .post _ _ => true
+  | .bin _ l r => hasIncDec l || hasIncDec r
+  | .cond c t e => hasIncDec c || hasIncDec t || hasIncDec e
 
 /-! ## text: maximal-munch lexer and grammar-directed parser -/
 
